@@ -78,6 +78,34 @@ pub mod checks {
             TestFunction::Search(x, y) | TestFunction::Match(x, y) => a(x) || a(y),
         }
     }
+    /// the same query with every string literal replaced by f(literal)
+    pub fn map_literals(q: &JpQuery, f: &dyn Fn(&str) -> String) -> JpQuery {
+        fn lit(l: &Literal, f: &dyn Fn(&str) -> String) -> Literal { match l { Literal::String(s) => Literal::String(f(s)), x => x.clone() } }
+        fn cmpb(c: &Comparable, f: &dyn Fn(&str) -> String) -> Comparable { match c { Comparable::Literal(l) => Comparable::Literal(lit(l, f)), Comparable::Function(t) => Comparable::Function(tfn(t, f)), x => x.clone() } }
+        fn arg(a: &FnArg, f: &dyn Fn(&str) -> String) -> FnArg { match a { FnArg::Literal(l) => FnArg::Literal(lit(l, f)), FnArg::Test(t) => FnArg::Test(Box::new(tst(t, f))), FnArg::Filter(x) => FnArg::Filter(flt(x, f)) } }
+        fn tfn(t: &TestFunction, f: &dyn Fn(&str) -> String) -> TestFunction {
+            match t { TestFunction::Custom(n, v) => TestFunction::Custom(n.clone(), v.iter().map(|x| arg(x, f)).collect()), TestFunction::Length(x) => TestFunction::Length(Box::new(arg(x, f))),
+                      TestFunction::Value(x) => TestFunction::Value(arg(x, f)), TestFunction::Count(x) => TestFunction::Count(arg(x, f)),
+                      TestFunction::Search(x, y) => TestFunction::Search(arg(x, f), arg(y, f)), TestFunction::Match(x, y) => TestFunction::Match(arg(x, f), arg(y, f)) }
+        }
+        fn tst(t: &Test, f: &dyn Fn(&str) -> String) -> Test { match t { Test::RelQuery(v) => Test::RelQuery(segs(v, f)), Test::AbsQuery(q) => Test::AbsQuery(JpQuery::new(segs(&q.segments, f))), Test::Function(t) => Test::Function(Box::new(tfn(t, f))) } }
+        fn cmpn(c: &Comparison, f: &dyn Fn(&str) -> String) -> Comparison {
+            let (l, r) = c.vals(); let (l, r) = (cmpb(l, f), cmpb(r, f));
+            match c { Comparison::Eq(..) => Comparison::Eq(l, r), Comparison::Ne(..) => Comparison::Ne(l, r), Comparison::Gt(..) => Comparison::Gt(l, r), Comparison::Gte(..) => Comparison::Gte(l, r), Comparison::Lt(..) => Comparison::Lt(l, r), Comparison::Lte(..) => Comparison::Lte(l, r) }
+        }
+        fn flt(x: &Filter, f: &dyn Fn(&str) -> String) -> Filter {
+            match x { Filter::Or(v) => Filter::Or(v.iter().map(|y| flt(y, f)).collect()), Filter::And(v) => Filter::And(v.iter().map(|y| flt(y, f)).collect()),
+                      Filter::Atom(FilterAtom::Filter { expr, not }) => Filter::Atom(FilterAtom::Filter { expr: Box::new(flt(expr, f)), not: *not }),
+                      Filter::Atom(FilterAtom::Test { expr, not }) => Filter::Atom(FilterAtom::Test { expr: Box::new(tst(expr, f)), not: *not }),
+                      Filter::Atom(FilterAtom::Comparison(c)) => Filter::Atom(FilterAtom::Comparison(Box::new(cmpn(c, f)))) }
+        }
+        fn sel(s: &Selector, f: &dyn Fn(&str) -> String) -> Selector { match s { Selector::Filter(x) => Selector::Filter(flt(x, f)), y => y.clone() } }
+        fn segs(v: &[Segment], f: &dyn Fn(&str) -> String) -> Vec<Segment> {
+            v.iter().map(|s| match s { Segment::Selector(x) => Segment::Selector(sel(x, f)), Segment::Selectors(xs) => Segment::Selectors(xs.iter().map(|x| sel(x, f)).collect()),
+                                       Segment::Descendant(b) => Segment::Descendant(Box::new(segs(std::slice::from_ref(&**b), f).remove(0))) }).collect()
+        }
+        JpQuery::new(segs(&q.segments, f))
+    }
     /// string literals of the comparisons / function arguments in the filters of a query
     fn literal_strings(q: &[Segment], out: &mut Vec<String>) {
         fn cmpb(c: &Comparable, out: &mut Vec<String>) { match c { Comparable::Literal(Literal::String(s)) => out.push(s.clone()), Comparable::Function(tf) => tfn(tf, out), _ => {} } }
@@ -448,7 +476,18 @@ pub mod checks {
                         let same = gi == wi;
                         gi.sort(); wi.sort();
                         let det = json!({"observed": got.iter().map(|x| &x.1).collect::<Vec<_>>(), "expected": want.iter().map(|x| &x.1).collect::<Vec<_>>()});
-                        if gi != wi { rep.fail(&format!("{}.members", name), &feats, w(det)); }
+                        if gi != wi {
+                            // the finding on string-literal escapes is ONE specific wrong denotation (the text between the quotes taken verbatim):
+                            // a result that is neither the RFC one nor that one is a different violation
+                            let mut f = feats.clone();
+                            if f.iter().any(|x| x == "string-literal-needs-escaping") {
+                                let qk = map_literals(q, &|s| print::escape_body(s));
+                                let mut kf: Vec<usize> = Ctx::new(d).query(&qk).iter().map(|n| n.v as *const Value as usize).collect();
+                                kf.sort();
+                                if kf != gi { f.retain(|x| x != "string-literal-needs-escaping"); f.push("result-differs-from-known-literal-denotation".to_string()); }
+                            }
+                            rep.fail(&format!("{}.members", name), &f, w(det));
+                        }
                         else if !same {
                             let mut f = feats.clone();
                             if f.iter().any(|x| x == "multi-selector-segment") {
